@@ -71,6 +71,24 @@ theorem exports_and_start_preserved (m o : ModuleM) (h : roundTripModule m = som
     obtain ⟨ρ, h1, h2, _, _, h5⟩ := c.funcRenaming
     exact ⟨ρ, h1, h2, h5⟩⟩
 
+/-- two function exports name one and the same function after the round trip exactly when they did
+    before it (the renaming is a function, and it is injective) -/
+theorem function_exports_alias_iff (m o : ModuleM) (h : roundTripModule m = some o)
+    (k1 k2 : Nat) (e1 e2 : String × String × Nat)
+    (h1 : m.exports[k1]? = some e1) (h2 : m.exports[k2]? = some e2) (f1 : e1.2.1 = "f") (f2 : e2.2.1 = "f") :
+    ∃ e1' e2' : String × String × Nat, o.exports[k1]? = some e1' ∧ o.exports[k2]? = some e2' ∧
+      (e1'.2.2 = e2'.2.2 ↔ e1.2.2 = e2.2.2) := by
+  obtain ⟨ρ, hex, _, _, _, hinj⟩ := (roundTrip_components m o h).funcRenaming
+  obtain ⟨e1', he1, ha1⟩ := hex k1 e1 h1 f1
+  obtain ⟨e2', he2, ha2⟩ := hex k2 e2 h2 f2
+  refine ⟨e1', e2', he1, he2, ?_, ?_⟩
+  · intro heq
+    exact hinj _ _ _ ha1 (heq ▸ ha2)
+  · intro heq
+    rw [heq, ha2] at ha1
+    injection ha1 with ha1
+    exact ha1.symm
+
 /-- segments: nothing added or dropped; data payloads, modes and target memories unchanged, the
     offset expression of an active data segment kept operator for operator (`CExprKept`) -/
 theorem segments_preserved (m o : ModuleM) (h : roundTripModule m = some o) :
